@@ -9,9 +9,9 @@ def impl_cfg(qs, offs, ws, memhost, branch, invs=("T7", "HostIndependent"), bigq
     for i in invs: t += "INVARIANT %s\n" % i
     return t
 
-def x_cfg(scn, views, memhost, branch, bigcounts=(64, 300)):
-    return ("SPECIFICATION Spec\nCONSTANTS\n  Buf = {1}\n  Scn = \"%s\"\n  XViews = {%s}\n  MemHost = \"%s\"\n  Branch = \"%s\"\n  BigCounts = {%s}\nCONSTRAINT Emit\nINVARIANT HostIndependence\nCHECK_DEADLOCK FALSE\n"
-            % (scn, ", ".join('"%s"' % v for v in views), memhost, branch, ", ".join(map(str, bigcounts))))
+def x_cfg(scn, views, memhost, branch, bigcounts=(64, 300), acc="walk", codec="helpers"):
+    return ("SPECIFICATION Spec\nCONSTANTS\n  Buf = {1}\n  Scn = \"%s\"\n  XViews = {%s}\n  MemHost = \"%s\"\n  Branch = \"%s\"\n  BigCounts = {%s}\n  AccStyle = \"%s\"\n  CodecStyle = \"%s\"\nCONSTRAINT Emit\nINVARIANT HostIndependence\nCHECK_DEADLOCK FALSE\n"
+            % (scn, ", ".join('"%s"' % v for v in views), memhost, branch, ", ".join(map(str, bigcounts)), acc, codec))
 
 def raw_cmd(vec, place, off):
     return "Y %s %d %d %d %s %d %s %d %s" % (vec["op"], vec["q"], vec["off"], vec["w"], hexs(vec["val"]) + (hexs(vec["val2"]) if vec["op"] == "gsg" else ""),
